@@ -236,7 +236,9 @@ bool Instance::rewind() {
         return false;
     }
     if (env->done) {
+        // the final step only marked the script as finished; undoing it undoes nothing else
         env->done = false;
+        return true;
     }
     return RewindScript(*env);
 }
